@@ -403,21 +403,29 @@ func (f Slice) startEndStep(size int) (start, end, step int) {
 			return
 		}
 	}
+	// Normalize like Get does so that Locate and Walk select the same
+	// elements: a negative bound counts from the end, the end is exclusive,
+	// and with a positive step a start at or beyond the end selects nothing.
 	if start < 0 {
 		start = size + start
-	} else if size <= start {
-		start = size - 1
-	}
-	if start < 0 {
-		start = 0
+		if start < 0 {
+			start = 0
+		}
 	}
 	if end < 0 {
-		end = size + end + 1
-		if end < 0 && step < 0 {
-			end = -1
+		end = size + end
+	}
+	if size <= start {
+		if 0 < step || size == 0 {
+			return 0, 0, 1 // empty
 		}
-	} else if size < end {
+		start = size - 1
+	}
+	if size < end {
 		end = size
+	}
+	if step < 0 && end < -1 {
+		end = -1
 	}
 	return
 }
